@@ -132,7 +132,7 @@ class _NumericOperationsImpl(OperationsBlock):
     def ceil(self, x):
         if isinstance(x.dtype, (dtypes.Floating, dtypes.NullableFloating)):
             return unary_op(x, opx.ceil, dtypes.float64)
-        return ndx.asarray(x, copy=False)
+        return x.copy()
 
     @validate_core
     def cos(self, x):
@@ -184,7 +184,7 @@ class _NumericOperationsImpl(OperationsBlock):
         x = ndx.asarray(x)
         if isinstance(x.dtype, (dtypes.Floating, dtypes.NullableFloating)):
             return unary_op(x, opx.floor, dtypes.float64)
-        return x
+        return x.copy()
 
     @validate_core
     def floor_divide(self, x, y):
@@ -314,7 +314,7 @@ class _NumericOperationsImpl(OperationsBlock):
         if isinstance(x.dtype, (dtypes.Floating, dtypes.NullableFloating)):
             return unary_op(x, opx.round)
         else:
-            return x
+            return x.copy()
 
     @validate_core
     def sign(self, x):
@@ -369,7 +369,7 @@ class _NumericOperationsImpl(OperationsBlock):
         x = ndx.asarray(x)
         if isinstance(x.dtype, (dtypes.Floating, dtypes.NullableFloating)):
             return ndx.where(x < 0, self.ceil(x), self.floor(x))
-        return x
+        return x.copy()
 
     # linalg.py
 
@@ -794,6 +794,8 @@ class _NumericOperationsImpl(OperationsBlock):
                 x = ndx.where(x >= min, x, min)
             if isinstance(x.dtype, (dtypes.Floating, dtypes.NullableFloating)):
                 return ndx.where(ndx.isnan(input), np.nan, x)
+            elif min is None and max is None:
+                return input
             else:
                 return x
 
